@@ -363,6 +363,10 @@ func checkC06(r *Run) {
 
 	// each request frame is a fresh object handed to exactly one handler
 	checkFreshFrame(r, p.Fn("p9p:(*conn).read"), "fresh-frame")
+	c06OnlyServeSendsResponses(r, p, sp, "responses-owner")
+	c06HandlerAlwaysCompletes(r, sp, "always-completes")
+	// a flushed tag must leave the table, or every later request reusing it is refused as a duplicate
+	c07FlushClause(r, p, sp)
 
 	// (6) dispatch table
 	checkDispatchTable(r, "dispatch")
@@ -379,12 +383,21 @@ func c06ErrorFcall(r *Run) {
 	}
 	for _, fn := range []*ssa.Function{ne, nf} {
 		for _, ret := range returnsOf(fn) {
-			a, ok := ret.Results[0].(*ssa.Alloc)
-			if !ok {
-				r.Undecided("constructors", fnName(fn)+": returns a fresh Fcall", ret.Pos(), "result is not a composite literal")
+			var flds map[string]ssa.Value
+			typedRerror := false
+			if a, ok := ret.Results[0].(*ssa.Alloc); ok {
+				flds, _, _ = allocFields(a)
+			} else if c, ok := ret.Results[0].(*ssa.Call); ok && fn == ne && staticCallee(&c.Call) == nf && len(c.Call.Args) == 2 {
+				// newErrorFcall delegating to newFcall(tag, msg) with msg statically a MessageRerror: typed Rerror by msg.Type()
+				flds = map[string]ssa.Value{"Tag": c.Call.Args[0], "Message": c.Call.Args[1]}
+				if mi, ok := c.Call.Args[1].(*ssa.MakeInterface); ok && isP9P(mi.X.Type(), "MessageRerror") {
+					typedRerror = true
+					flds["Message"] = mi.X
+				}
+			} else {
+				r.Undecided("constructors", fnName(fn)+": returns a fresh Fcall", ret.Pos(), "result is neither a composite literal nor newFcall(tag, msg)")
 				continue
 			}
-			flds, _, _ := allocFields(a)
 			r.Check(flds["Tag"] == ssa.Value(fn.Params[0]), "constructors", fnName(fn)+": Tag is the tag argument", ret.Pos(), "the constructed fcall does not carry the given tag")
 			if fn == nf {
 				msg := fn.Params[1]
@@ -395,10 +408,12 @@ func c06ErrorFcall(r *Run) {
 				r.Check(okT && flds["Message"] == ssa.Value(msg), "constructors", "newFcall: Type = msg.Type(), Message = msg", ret.Pos(), "type byte and message body can disagree")
 			} else {
 				tv, okc := constInt(flds["Type"])
-				r.Check(okc && tv == 107, "constructors", "newErrorFcall: Type = Rerror", ret.Pos(), "error replies are not typed Rerror")
-				// Message alternatives: the error itself when it is a MessageRerror (value or pointer), else MessageRerror{Ename: err.Error()}
-				okAll, nAlt := errMessageAlternatives(r.P, flds["Message"], fn.Params[1], 0)
-				r.Check(okAll && nAlt >= 2, "constructors", "newErrorFcall: message is the Rerror itself or MessageRerror{Ename: err.Error()}", ret.Pos(), "the error text sent is not the handler's error text")
+				r.Check(typedRerror || (okc && tv == 107), "constructors", "newErrorFcall: Type = Rerror", ret.Pos(), "error replies are not typed Rerror")
+				// Message alternatives: the error itself when it is a MessageRerror — value or pointer, both implement
+				// error — else MessageRerror{Ename: err.Error()}
+				okAll, kinds := errMessageAlternatives(r.P, flds["Message"], fn.Params[1], 0)
+				r.Check(okAll && kinds == 7, "constructors", "newErrorFcall: message is the Rerror itself (value or pointer) or MessageRerror{Ename: err.Error()}", ret.Pos(),
+					"the error text sent is not the handler's error text (an error that is a MessageRerror, by value or by pointer, must be passed through; rendering it with Error() prefixes its text)")
 			}
 		}
 	}
@@ -551,104 +566,12 @@ func checkC07(r *Run) {
 	}
 	r.SawFn(fnName(sp.serve))
 	handlerRunsUnderRequestContext(r, sp, "handler-ctx")
-	// (1) the flush clause
-	var ta *ssa.TypeAssert
-	eachInstr(sp.serve, func(in ssa.Instruction) {
-		if x, ok := in.(*ssa.TypeAssert); ok && isP9P(x.AssertedType, "MessageTflush") {
-			ta = x
-		}
-	})
-	if ta == nil {
-		r.Bad("flush", "serve: Tflush is handled by the serve loop", sp.serve.Pos(), "no Tflush clause: flush requests are dispatched to the handler and never cancel anything")
+	// "no reply to the flushed request is ever sent after the acknowledgement": replies reach the writer only through
+	// the serve loop's table-guarded forward
+	c06OnlyServeSendsResponses(r, p, sp, "responses-owner")
+	if !c07FlushClause(r, p, sp) {
 		return
 	}
-	msgOwner, _ := fieldOfLocalCopy(ta.X, "Message")
-	r.Check(msgOwner == sp.reqVal, "flush", "serve: Tflush clause inspects the received request", ta.Pos(), "the clause looks at another message")
-	rem := p.Fn("p9p:(reqMap).remove")
-	var remCalls []*ssa.Call
-	if rem != nil {
-		remCalls = findCalls(sp.serve, "(p9p.reqMap).remove")
-	}
-	if rem == nil || len(remCalls) == 0 {
-		r.Bad("flush", "serve: flush removes the outstanding entry through the cancel-and-delete helper", ta.Pos(), "the flush clause does not call the cancel+delete helper")
-		return
-	}
-	rc := remCalls[0]
-	r.Check(len(remCalls) == 1 && sp.tags(rc.Call.Args[0]), "flush", "serve: one cancel-and-delete call on the tag table", rc.Pos(), "remove is not applied to the tag table exactly once")
-	// argument is msg.Oldtag of the asserted flush message
-	old, okOld := fieldOfLocalCopy(rc.Call.Args[1], "Oldtag")
-	okArg := false
-	if okOld {
-		if ex, ok := old.(*ssa.Extract); ok && ex.Tuple == ssa.Value(ta) {
-			okArg = true
-		}
-	}
-	r.Check(okArg, "flush", "serve: the entry removed is the one named by Oldtag", rc.Pos(), "the flush cancels a tag other than oldtag")
-	// inside remove: cancel dominates delete, both on the found edge, result = found
-	c07Remove(r, rem)
-	// replies: on the true edge Rflush with req.Tag; on the false edge Rerror(ErrUnknownTag) with req.Tag; both after remove
-	okFlush, okUnknown := false, false
-	var replies []*ssa.Call
-	eachInstr(sp.serve, func(in ssa.Instruction) {
-		c, ok := in.(*ssa.Call)
-		if !ok || !instrDominates(rc, c) {
-			return
-		}
-		edge := 0
-		for _, cd := range condsAtInstr(c) {
-			nc := normCond(cd)
-			if nc.V == ssa.Value(rc) {
-				if nc.Truth {
-					edge = 1
-				} else {
-					edge = -1
-				}
-			}
-		}
-		switch calleeName(&c.Call) {
-		case "p9p.newFcall":
-			if edge == 1 && tagOwner(c.Call.Args[0]) == sp.reqVal {
-				if k, ok := stripConv(c.Call.Args[1]).(*ssa.Const); ok && isP9P(k.Type(), "MessageRflush") {
-					okFlush = true
-					replies = append(replies, c)
-				}
-			}
-		case "p9p.newErrorFcall":
-			if edge == -1 && tagOwner(c.Call.Args[0]) == sp.reqVal {
-				if u, ok := c.Call.Args[1].(*ssa.UnOp); ok {
-					if g, ok := u.X.(*ssa.Global); ok && g.Name() == "ErrUnknownTag" {
-						okUnknown = true
-						replies = append(replies, c)
-					}
-				}
-			}
-		}
-	})
-	r.Check(okFlush, "flush", "serve: Rflush (with the flush request's tag) is built only after the entry was cancelled and removed", rc.Pos(),
-		"the acknowledgement is constructed before/without cancel+delete: a reply to the flushed request can follow the Rflush")
-	r.Check(okUnknown, "flush", "serve: a flush of a tag that is not outstanding is answered with Rerror(unknown tag)", rc.Pos(), "a flush naming an unknown tag gets no (or a wrong) reply")
-	// exactly one send of the phi of those replies, post-dominating
-	nSend := 0
-	for _, ss := range p.sendSites(sp.serve) {
-		if ss.Chan != sp.responses {
-			continue
-		}
-		alts := phiAlternatives(ss.Val, 3)
-		match := 0
-		for _, a := range alts {
-			for _, rp := range replies {
-				if a == ssa.Value(rp) {
-					match++
-				}
-			}
-		}
-		if match == len(alts) && match == 2 {
-			nSend++
-			r.Check(instrDominates(rc, ss.In) && !reachAvoiding(ss.In.Block(), ss.In.Block(), sp.mainSel.Block()), "flush", "serve: the flush reply is sent once, after cancel+delete", ss.In.Pos(), "the flush reply can be sent more than once or before the entry is removed")
-		}
-	}
-	r.Check(nSend == 1, "flush", "serve: both flush outcomes reach exactly one send", rc.Pos(), fmt.Sprintf("%d sends carry the flush replies", nSend))
-
 	// (2)+(3) late completions
 	var fwd *ssa.Select
 	cb := selectCaseBlock(sp.mainSel, sp.compCase)
@@ -857,35 +780,35 @@ func c07Remove(r *Run, rem *ssa.Function) {
 // pointer), or MessageRerror{Ename: errv.Error()}; helper functions that compute the message from the error are
 // followed through their return values.
 func errMessageAlternatives(p *Prog, v ssa.Value, errv ssa.Value, depth int) (bool, int) {
-	okAll, nAlt := true, 0
+	okAll, nAlt := true, 0 // nAlt: bit 1 the MessageRerror value passed through, bit 2 the pointer's pointee, bit 4 the error text
 	for _, alt := range phiAlternatives(v, 3) {
 		v := stripConv(alt)
 		if ex, ok := v.(*ssa.Extract); ok {
 			if ta, ok := ex.Tuple.(*ssa.TypeAssert); ok && ta.X == errv && isP9P(ta.AssertedType, "MessageRerror") {
-				nAlt++
+				nAlt |= 1
 				continue
 			}
 		}
 		if ta, ok := v.(*ssa.TypeAssert); ok && !ta.CommaOk && ta.X == errv && isP9P(ta.AssertedType, "MessageRerror") {
-			nAlt++
+			nAlt |= 1
 			continue
 		}
 		if u, ok := v.(*ssa.UnOp); ok && u.Op == token.MUL {
 			if ex, ok := u.X.(*ssa.Extract); ok {
 				if ta, ok := ex.Tuple.(*ssa.TypeAssert); ok && ta.X == errv {
-					nAlt++
+					nAlt |= 2
 					continue
 				}
 			}
 			if ta, ok := u.X.(*ssa.TypeAssert); ok && !ta.CommaOk && ta.X == errv {
-				nAlt++
+				nAlt |= 2
 				continue
 			}
 			if al, ok := u.X.(*ssa.Alloc); ok {
 				f2, named, _ := allocFields(al)
 				if named != nil && named.Obj().Name() == "MessageRerror" {
 					if c, ok := f2["Ename"].(*ssa.Call); ok && c.Call.IsInvoke() && c.Call.Method.Name() == "Error" && derivesFrom(c.Call.Value, errv, 3) {
-						nAlt++
+						nAlt |= 4
 						continue
 					}
 				}
@@ -906,7 +829,7 @@ func errMessageAlternatives(p *Prog, v ssa.Value, errv ssa.Value, depth int) (bo
 						if !ok2 {
 							sub = false
 						}
-						nAlt += n2
+						nAlt |= n2
 					}
 					if sub {
 						continue
@@ -1076,4 +999,280 @@ func delegatedClause(p *Prog, h *ssa.Function, body *ssa.BasicBlock, method stri
 		}
 	}
 	return staticCallee(&deleg.Call), deleg
+}
+
+// c07FlushClause: the Tflush clause of the serve loop (shared by C06: a flushed tag whose entry stays in the table
+// makes every later request reusing it a "duplicate" that is never dispatched).
+func c07FlushClause(r *Run, p *Prog, sp *serveParts) bool {
+	// (1) the flush clause
+	var ta *ssa.TypeAssert
+	eachInstr(sp.serve, func(in ssa.Instruction) {
+		if x, ok := in.(*ssa.TypeAssert); ok && isP9P(x.AssertedType, "MessageTflush") {
+			ta = x
+		}
+	})
+	if ta == nil {
+		r.Bad("flush", "serve: Tflush is handled by the serve loop", sp.serve.Pos(), "no Tflush clause: flush requests are dispatched to the handler and never cancel anything")
+		return false
+	}
+	msgOwner, _ := fieldOfLocalCopy(ta.X, "Message")
+	r.Check(msgOwner == sp.reqVal, "flush", "serve: Tflush clause inspects the received request", ta.Pos(), "the clause looks at another message")
+	rem := p.Fn("p9p:(reqMap).remove")
+	var remCalls []*ssa.Call
+	if rem != nil {
+		remCalls = findCalls(sp.serve, "(p9p.reqMap).remove")
+	}
+	if rem == nil || len(remCalls) == 0 {
+		r.Bad("flush", "serve: flush removes the outstanding entry through the cancel-and-delete helper", ta.Pos(), "the flush clause does not call the cancel+delete helper")
+		return false
+	}
+	rc := remCalls[0]
+	r.Check(len(remCalls) == 1 && sp.tags(rc.Call.Args[0]), "flush", "serve: one cancel-and-delete call on the tag table", rc.Pos(), "remove is not applied to the tag table exactly once")
+	// argument is msg.Oldtag of the asserted flush message
+	old, okOld := fieldOfLocalCopy(rc.Call.Args[1], "Oldtag")
+	okArg := false
+	if okOld {
+		if ex, ok := old.(*ssa.Extract); ok && ex.Tuple == ssa.Value(ta) {
+			okArg = true
+		}
+	}
+	r.Check(okArg, "flush", "serve: the entry removed is the one named by Oldtag", rc.Pos(), "the flush cancels a tag other than oldtag")
+	// inside remove: cancel dominates delete, both on the found edge, result = found
+	c07Remove(r, rem)
+	// replies: on the true edge Rflush with req.Tag; on the false edge Rerror(ErrUnknownTag) with req.Tag; both after remove
+	okFlush, okUnknown := false, false
+	var replies []*ssa.Call
+	eachInstr(sp.serve, func(in ssa.Instruction) {
+		c, ok := in.(*ssa.Call)
+		if !ok || !instrDominates(rc, c) {
+			return
+		}
+		edge := 0
+		for _, cd := range condsAtInstr(c) {
+			nc := normCond(cd)
+			if nc.V == ssa.Value(rc) {
+				if nc.Truth {
+					edge = 1
+				} else {
+					edge = -1
+				}
+			}
+		}
+		switch calleeName(&c.Call) {
+		case "p9p.newFcall":
+			if edge == 1 && tagOwner(c.Call.Args[0]) == sp.reqVal {
+				if k, ok := stripConv(c.Call.Args[1]).(*ssa.Const); ok && isP9P(k.Type(), "MessageRflush") {
+					okFlush = true
+					replies = append(replies, c)
+				}
+			}
+		case "p9p.newErrorFcall":
+			if edge == -1 && tagOwner(c.Call.Args[0]) == sp.reqVal {
+				if u, ok := c.Call.Args[1].(*ssa.UnOp); ok {
+					if g, ok := u.X.(*ssa.Global); ok && g.Name() == "ErrUnknownTag" {
+						okUnknown = true
+						replies = append(replies, c)
+					}
+				}
+			}
+		}
+	})
+	r.Check(okFlush, "flush", "serve: Rflush (with the flush request's tag) is built only after the entry was cancelled and removed", rc.Pos(),
+		"the acknowledgement is constructed before/without cancel+delete: a reply to the flushed request can follow the Rflush")
+	r.Check(okUnknown, "flush", "serve: a flush of a tag that is not outstanding is answered with Rerror(unknown tag)", rc.Pos(), "a flush naming an unknown tag gets no (or a wrong) reply")
+	// exactly one send of the phi of those replies, post-dominating
+	nSend := 0
+	for _, ss := range p.sendSites(sp.serve) {
+		if ss.Chan != sp.responses {
+			continue
+		}
+		alts := phiAlternatives(ss.Val, 3)
+		match := 0
+		for _, a := range alts {
+			for _, rp := range replies {
+				if a == ssa.Value(rp) {
+					match++
+				}
+			}
+		}
+		if match == len(alts) && match == 2 {
+			nSend++
+			r.Check(instrDominates(rc, ss.In) && !reachAvoiding(ss.In.Block(), ss.In.Block(), sp.mainSel.Block()), "flush", "serve: the flush reply is sent once, after cancel+delete", ss.In.Pos(), "the flush reply can be sent more than once or before the entry is removed")
+		}
+	}
+	r.Check(nSend == 1, "flush", "serve: both flush outcomes reach exactly one send", rc.Pos(), fmt.Sprintf("%d sends carry the flush replies", nSend))
+
+	return true
+}
+
+// chanOrigin: the MakeChan a channel-typed value denotes, followed through parameters (every call/go/defer site of
+// the function must pass the same channel), closure free variables and single-assignment local cells; nil if unknown.
+func chanOrigin(p *Prog, v ssa.Value, depth int) ssa.Value {
+	if depth > 6 || v == nil {
+		return nil
+	}
+	switch x := v.(type) {
+	case *ssa.MakeChan:
+		return x
+	case *ssa.ChangeType:
+		return chanOrigin(p, x.X, depth+1)
+	case *ssa.UnOp:
+		if x.Op != token.MUL {
+			return nil
+		}
+		var cell *ssa.Alloc
+		switch a := x.X.(type) {
+		case *ssa.Alloc:
+			cell = a
+		case *ssa.FreeVar:
+			if b := freeVarBinding(a); b != nil {
+				cell, _ = b.(*ssa.Alloc)
+			}
+		}
+		if cell == nil {
+			return nil
+		}
+		var val ssa.Value
+		n := 0
+		for _, rf := range referrers(cell) {
+			if st, ok := rf.(*ssa.Store); ok && st.Addr == ssa.Value(cell) {
+				val = st.Val
+				n++
+			}
+		}
+		if n != 1 {
+			return nil
+		}
+		return chanOrigin(p, val, depth+1)
+	case *ssa.FreeVar:
+		if b := freeVarBinding(x); b != nil {
+			return chanOrigin(p, b, depth+1)
+		}
+	case *ssa.Parameter:
+		fn := x.Parent()
+		idx := -1
+		for i, q := range fn.Params {
+			if q == x {
+				idx = i
+			}
+		}
+		if idx < 0 {
+			return nil
+		}
+		var origin ssa.Value
+		n := 0
+		for _, f := range p.allFns {
+			bad := false
+			eachInstr(f, func(in ssa.Instruction) {
+				ci, ok := in.(ssa.CallInstruction)
+				if !ok || staticCallee(ci.Common()) != fn {
+					return
+				}
+				n++
+				if idx >= len(ci.Common().Args) {
+					bad = true
+					return
+				}
+				o := chanOrigin(p, ci.Common().Args[idx], depth+1)
+				if o == nil || (origin != nil && o != origin) {
+					bad = true
+				}
+				origin = o
+			})
+			if bad {
+				return nil
+			}
+		}
+		if n == 0 {
+			return nil
+		}
+		return origin
+	}
+	return nil
+}
+
+// freeVarBinding: what the closure's free variable is bound to where the closure is made (unique MakeClosure).
+func freeVarBinding(fv *ssa.FreeVar) ssa.Value {
+	fn := fv.Parent()
+	par := fn.Parent()
+	if par == nil {
+		return nil
+	}
+	idx := -1
+	for i, q := range fn.FreeVars {
+		if q == fv {
+			idx = i
+		}
+	}
+	var out ssa.Value
+	n := 0
+	eachInstr(par, func(in ssa.Instruction) {
+		if mc, ok := in.(*ssa.MakeClosure); ok && mc.Fn == ssa.Value(fn) && idx >= 0 && idx < len(mc.Bindings) {
+			out = mc.Bindings[idx]
+			n++
+		}
+	})
+	if n != 1 {
+		return nil
+	}
+	return out
+}
+
+// c06OnlyServeSendsResponses: the channel the writer loop drains is fed by the serve loop alone. A reply put there
+// from anywhere else (a handler goroutine, the writer re-queueing a frame it failed to write) bypasses the tag
+// table: it can be written after the tag was flushed and acknowledged, or after the tag was reused.
+func c06OnlyServeSendsResponses(r *Run, p *Prog, sp *serveParts, rule string) {
+	want := chanOrigin(p, sp.responses, 0)
+	if want == nil {
+		r.Undecided(rule, "serve: the responses channel", sp.serve.Pos(), "cannot resolve the channel handed to the writer loop to its make")
+		return
+	}
+	n := 0
+	for _, fn := range componentFuncs(p, "conn") {
+		for _, ss := range p.sendSites(fn) {
+			ch, ok := ss.Chan.Type().Underlying().(*types.Chan)
+			if !ok || !strings.HasSuffix(shortType(ch.Elem()), "Fcall") {
+				continue
+			}
+			o := chanOrigin(p, ss.Chan, 0)
+			if o == nil {
+				r.Undecided(rule, fnName(fn)+": send on a channel of frames", ss.In.Pos(), "cannot tell which channel this send feeds")
+				continue
+			}
+			if o != want {
+				continue
+			}
+			n++
+			r.Check(fn == sp.serve, rule, fnName(fn)+": replies reach the writer only through the serve loop", ss.In.Pos(),
+				"a reply is queued for writing from outside the serve loop: it bypasses the tag table (it can be written after its tag was flushed and acknowledged, or reused)")
+		}
+	}
+	r.Floor(rule, n, 3, "sends on the responses channel")
+}
+
+// c06HandlerAlwaysCompletes: every way out of the handler goroutine passes the select that offers the completion
+// (whose other arms are the request's cancellation and the connection's end): no request is left without a reply —
+// and with its tag in the table for ever — because of what the handler returned.
+func c06HandlerAlwaysCompletes(r *Run, sp *serveParts, rule string) {
+	h := sp.handler
+	via := map[*ssa.BasicBlock]bool{}
+	for _, op := range chanOps(h) {
+		if sel, ok := op.In.(*ssa.Select); ok {
+			for _, st := range sel.States {
+				if st.Dir == types.SendOnly {
+					via[sel.Block()] = true
+				}
+			}
+		}
+		if sd, ok := op.In.(*ssa.Send); ok {
+			via[sd.Block()] = true
+		}
+	}
+	n := 0
+	for _, ret := range returnsOf(h) {
+		n++
+		r.Check(allPathsThrough(h, via, ret.Block()), rule, "handler: every exit of the goroutine has offered its completion", ret.Pos(),
+			"the goroutine can end without reporting a completion although the request was not cancelled: the request is never answered and its tag stays outstanding (every reuse is refused as a duplicate)")
+	}
+	r.Floor(rule, n, 1, "exits of the handler goroutine")
 }
